@@ -112,9 +112,9 @@ func (o optSet) String() string {
 func run(c *vf.Ctx) {
 	g := gitx.New(c.Scratch)
 	layouts := []string{"multi", "deep", "alternates", "loose"}
-	nRepos := c.N(6, 24)
-	optPer := c.N(5, 10)
-	readsPer := c.N(1200, 5000)
+	nRepos := c.N(6, 16)
+	optPer := c.N(5, 8)
+	readsPer := c.N(1200, 4000)
 
 	repos := make([]*repo, nRepos)
 	vf.Parallel(nRepos, 6, func(i int) {
@@ -166,16 +166,16 @@ func run(c *vf.Ctx) {
 	vf.Parallel(len(repos), 6, func(i int) { packLevel(c, repos[i]) })
 
 	c.Extra("git_invocations", gitx.Calls.Load())
-	c.Floor("reads compared with git cat-file", c.Counter("reads"), c.N(30000, 900000))
-	c.Floor("object contents compared byte-for-byte", c.Counter("contents_compared"), c.N(20000, 500000))
-	c.Floor("reads of packed deltas", c.Counter("reads_delta"), c.N(3000, 60000))
-	c.Floor("reads served by an alternate", c.Counter("reads_alternate"), c.N(800, 15000))
-	c.Floor("reads of objects stored more than once", c.Counter("reads_duplicated"), c.N(800, 15000))
-	c.Floor("large-object-threshold reads (loose, size > threshold)", c.Counter("reads_large_path"), c.N(60, 1500))
-	c.Floor("iterator runs", c.Counter("iter_runs"), c.N(60, 1000))
-	c.Floor("prefix queries", c.Counter("prefix_queries"), c.N(500, 10000))
-	c.Floor("pack-level reads (Packfile / mmap.PackScanner)", c.Counter("packlevel_reads"), c.N(1500, 15000))
-	c.Floor("option sets", c.SeenCount("option_sets"), c.N(12, 60))
+	c.Floor("reads compared with git cat-file", c.Counter("reads"), c.N(30000, 400000))
+	c.Floor("object contents compared byte-for-byte", c.Counter("contents_compared"), c.N(20000, 250000))
+	c.Floor("reads of packed deltas", c.Counter("reads_delta"), c.N(3000, 40000))
+	c.Floor("reads served by an alternate", c.Counter("reads_alternate"), c.N(800, 10000))
+	c.Floor("reads of objects stored more than once", c.Counter("reads_duplicated"), c.N(800, 10000))
+	c.Floor("large-object-threshold reads (loose, size > threshold)", c.Counter("reads_large_path"), c.N(60, 800))
+	c.Floor("iterator runs", c.Counter("iter_runs"), c.N(60, 800))
+	c.Floor("prefix queries", c.Counter("prefix_queries"), c.N(500, 8000))
+	c.Floor("pack-level reads (Packfile / mmap.PackScanner)", c.Counter("packlevel_reads"), c.N(1500, 8000))
+	c.Floor("option sets", c.SeenCount("option_sets"), c.N(12, 50))
 	c.Floor("object location classes", c.SeenCount("location_classes"), 7)
 	c.Floor("op kinds", c.SeenCount("op_kinds"), 14)
 	c.Assume("ground truth = `git cat-file --batch-all-objects --batch` (git 2.39.5) of each repository, taken once; the repositories are not modified while go-git reads them")
@@ -741,6 +741,13 @@ func runSequence(c *vf.Ctx, rp *repo, o optSet, r *rand.Rand, n int) {
 				}
 				sort.Strings(gotIDs)
 				if strings.Join(gotIDs, ",") != strings.Join(wantIDs, ",") {
+					in := rp.info[id]
+					if rp.format == "sha256" && len(prefix) > 20 && len(gotIDs) == 0 && len(wantIDs) == 1 && in.packs == 0 && in.altPacks == 0 && (in.loose || in.altLoose) {
+						// loose objects are looked up through DotGit.ObjectsWithPrefix, which caps the prefix at the SHA-1 size
+						s.c.Fail("HashesWithPrefix:set:sha256-prefix-over-20-bytes:loose", fmt.Sprintf("repo %d (%s,sha256) opts[%s]: prefix %x (%d bytes): got %v, git has %v", rp.idx, rp.layout, s.o, prefix, len(prefix), gotIDs, wantIDs),
+							map[string]any{"repo": rp.idx, "opts": s.o, "prefix": fmt.Sprintf("%x", prefix), "id": id})
+						return
+					}
 					s.fail(op, "set", id, fmt.Sprintf("prefix %x: got %v, git has %v", prefix, gotIDs, wantIDs))
 				}
 			case x < 93:
